@@ -43,7 +43,7 @@ def parseExcEntries (s : String) : Option (List Spec.Lines.ExcEntry) :=
 
 def showEnc : Except Model.LineEnc.EncErr Bytes → String
   | .ok b => showHex b
-  | .error _ => "(err valueError)"
+  | .error _ => "(err ValueError)"
 
 def linesDispatch (op : String) (args : List String) : Option String :=
   match op, args with
